@@ -172,3 +172,18 @@ def gen_tcp(seed, n):
             c.cmd([b"get", b"whoami"], conn=conn)
         small.append(c)
     return small + cases
+
+
+def gen_race(seed, n):
+    """lines for `harness selrace`: RACE <name> <dbs> <conns> <indexes>: a fresh server, <conns>
+    connections released by a barrier first-SELECT each listed (never used) index at the same
+    instant, write one key each, then everybody reads everybody's keys."""
+    r = random.Random(seed * 65537 + 11)
+    lines = []
+    for m in range(n):
+        dbs = r.choice([2, 3, 16, 16, 16])
+        conns = r.choice([8, 12, 16])
+        idxs = list(range(1, dbs))
+        r.shuffle(idxs)
+        lines.append("RACE c20race_%d_%d_n%d %d %d %s" % (seed, m, dbs, dbs, conns, ",".join(map(str, idxs))))
+    return lines
